@@ -122,6 +122,53 @@ func Mirror(c *core.Ctx, rule string, pkgs []*packages.Package, methods map[stri
 	for _, bc := range binClosures(c, pkgs) {
 		info := bc.fb.Pkg.TypesInfo
 		roots := map[types.Object]bool{bc.a: true, bc.b: true}
+		// locals that name a part of an operand: h1, h2 := t1.Head(), t2.Head() / l1, …, lN := left.Unapply()
+		type part struct {
+			root types.Object
+			path string
+		}
+		alias := map[types.Object]part{}
+		inspectShallow(bc.fb.Body, func(x ast.Node) bool {
+			as, ok := x.(*ast.AssignStmt)
+			if !ok || as.Tok != token.DEFINE {
+				return true
+			}
+			switch {
+			case len(as.Lhs) == len(as.Rhs):
+				for i, l := range as.Lhs {
+					if r, pth := accessorPath(info, as.Rhs[i], roots); r != nil {
+						if o := objOf(info, l); o != nil {
+							alias[o] = part{r, pth}
+						}
+					}
+				}
+			case len(as.Rhs) == 1 && len(as.Lhs) > 1:
+				if r, pth := accessorPath(info, as.Rhs[0], roots); r != nil {
+					for i, l := range as.Lhs {
+						if o := objOf(info, l); o != nil {
+							alias[o] = part{r, pth + "#" + itoa(i+1)}
+						}
+					}
+				}
+			}
+			return true
+		})
+		resolve := func(e ast.Expr) (types.Object, string) {
+			if len(alias) > 0 {
+				ext := map[types.Object]bool{bc.a: true, bc.b: true}
+				for o := range alias {
+					ext[o] = true
+				}
+				if r, pth := accessorPath(info, e, ext); r != nil {
+					if pt, ok := alias[r]; ok {
+						return pt.root, strings.Replace(pth, "#", "("+pt.path+")", 1)
+					}
+					return r, pth
+				}
+				return nil, ""
+			}
+			return accessorPath(info, e, roots)
+		}
 		k := 0
 		inspectShallow(bc.fb.Body, func(x ast.Node) bool {
 			call, ok := x.(*ast.CallExpr)
@@ -138,8 +185,8 @@ func Mirror(c *core.Ctx, rule string, pkgs []*packages.Package, methods map[stri
 			}
 			k++
 			key := bc.fb.Name + "/" + exprString(sel.X) + "." + sel.Sel.Name + "#" + itoa(k)
-			r1, p1 := accessorPath(info, call.Args[0], roots)
-			r2, p2 := accessorPath(info, call.Args[1], roots)
+			r1, p1 := resolve(call.Args[0])
+			r2, p2 := resolve(call.Args[1])
 			if r1 == nil || r2 == nil {
 				c.Add(rule, key, call.Pos(), core.Skipped, "arguments are not accessor paths of the closure parameters: "+exprString(call))
 				return true
@@ -294,6 +341,31 @@ func Lex(c *core.Ctx, rule string, pkgs []*packages.Package) {
 					continue
 				}
 				switch s := st.(type) {
+				case *ast.SwitchStmt:
+					// a tagless switch whose cases all return is the same if-chain written differently
+					if s.Tag == nil {
+						var chain, dflt []ast.Stmt
+						ok := true
+						for _, cc := range s.Body.List {
+							cl := cc.(*ast.CaseClause)
+							if cl.List == nil {
+								dflt = cl.Body
+								continue
+							}
+							if len(cl.List) != 1 || len(cl.Body) == 0 {
+								ok = false
+								break
+							}
+							if _, isRet := cl.Body[len(cl.Body)-1].(*ast.ReturnStmt); !isRet {
+								ok = false
+								break
+							}
+							chain = append(chain, &ast.IfStmt{If: cl.Pos(), Cond: cl.List[0], Body: &ast.BlockStmt{List: cl.Body}})
+						}
+						if ok {
+							walk(append(append(chain, dflt...), list[i+1:]...), inLoop)
+						}
+					}
 				case *ast.ForStmt:
 					walk(s.Body.List, true)
 				case *ast.RangeStmt:
